@@ -239,7 +239,7 @@ theorem dispatchO_returns {ε ρ : Type} (run : List Json → Outcome (Except ε
 
 theorem commandLineRunnerO_returns {ε ρ : Type} (run : List Json → Outcome (Except ε ρ))
     (hrun : ∀ b, ∃ r, run b = .ok r) (a : CliArgs) (hi : ∀ c, a.chunksize = some c → c < 2 ^ 63)
-    (cfg : ConfigFile) (file : QueryFile) (hf : file ≠ .unreadable) :
+    (cfg : ConfigFile) (file : QueryFile) :
     ∃ o, commandLineRunnerO run a cfg file = .ok o := by
   unfold commandLineRunnerO
   cases validate (ε := ε) a with
@@ -252,8 +252,87 @@ theorem commandLineRunnerO_returns {ε ρ : Type} (run : List Json → Outcome (
     | good =>
       cases file with
       | missing => exact ⟨_, rfl⟩
-      | unreadable => exact absurd rfl hf
+      | unreadable => exact ⟨_, rfl⟩
       | content doc lines => exact dispatchO_returns run hrun a hi _ (by simp)
+
+/-! ### the runner does not run without bound -/
+
+theorem runChunksO_ne_diverges {ε ρ : Type} (run : List Json → Outcome (Except ε ρ))
+    (hrun : ∀ b, run b ≠ .diverges) :
+    ∀ cs : List (List (Option Json)), runChunksO run cs ≠ .diverges
+  | [] => by simp [runChunksO]
+  | c :: cs => by
+    have ih := runChunksO_ne_diverges run hrun cs
+    have hc := hrun (chunkBatch c)
+    unfold runChunksO
+    cases h : run (chunkBatch c) with
+    | diverges => exact absurd h hc
+    | panic s => simp
+    | ok r =>
+      cases r with
+      | error e => simp
+      | ok v =>
+        cases h2 : runChunksO run cs with
+        | diverges => exact absurd h2 ih
+        | panic s => simp
+        | ok o => simp
+
+theorem runJsonO_ne_diverges {ε ρ : Type} (run : List Json → Outcome (Except ε ρ))
+    (hrun : ∀ b, run b ≠ .diverges) (file : QueryFile) : runJsonO run file ≠ .diverges := by
+  cases file with
+  | missing => simp [runJsonO]
+  | unreadable => simp [runJsonO]
+  | content doc lines =>
+    cases doc with
+    | none => simp [runJsonO]
+    | some v =>
+      simp only [runJsonO]
+      cases getQueries v with
+      | none => simp
+      | some batch =>
+        have hb := hrun batch
+        cases h : run batch with
+        | diverges => exact absurd h hb
+        | panic s => simp [h]
+        | ok r => cases r <;> simp [h]
+
+/-- on every query file `command_line_runner` lets through (one that can be read), whatever the arguments -/
+theorem dispatchO_ne_diverges {ε ρ : Type} (run : List Json → Outcome (Except ε ρ))
+    (hrun : ∀ b, run b ≠ .diverges) (a : CliArgs) (doc : Option Json) (lines : List (Option Json)) :
+    dispatchO run a (.content doc lines) ≠ .diverges := by
+  obtain ⟨cs, nd⟩ := a
+  cases cs with
+  | none => cases nd with
+    | true => simp [dispatchO]
+    | false => exact runJsonO_ne_diverges run hrun _
+  | some c => cases nd with
+    | false => simp [dispatchO]
+    | true =>
+      simp only [dispatchO, getChunksizeOption]
+      by_cases hc : c > 0
+      · simp only [hc, if_true, runNewlineJsonO, Option.getD_some, itChunksO]
+        by_cases h0 : asUsize c = 0
+        · simp [h0]
+        · simp only [h0, if_false]
+          exact runChunksO_ne_diverges run hrun _
+      · simp [hc]
+
+theorem commandLineRunnerO_ne_diverges {ε ρ : Type} (run : List Json → Outcome (Except ε ρ))
+    (hrun : ∀ b, run b ≠ .diverges) (a : CliArgs) (cfg : ConfigFile) (file : QueryFile) :
+    commandLineRunnerO run a cfg file ≠ .diverges := by
+  unfold commandLineRunnerO
+  cases validate (ε := ε) a with
+  | error e => simp
+  | ok u =>
+    simp only [afterValidateO]
+    cases cfg with
+    | unreadable => simp
+    | unbuildable => simp
+    | good =>
+      cases file with
+      | missing => simp
+      | unreadable => simp
+      | content doc lines => exact dispatchO_ne_diverges run hrun a doc lines
 
 end Cli
 end Compass
